@@ -27,6 +27,8 @@ EXTENDS Integers, Sequences, FiniteSets, TLC, Util, Json, IOUtils, ServiceClause
 
 CONSTANTS
   RecordHist,   \* BOOLEAN: keep the event history (generator configs)
+  FixF36,       \* BOOLEAN: FALSE = the code as it is (a module-service call credits the
+                \* empty owner with the sum of all owner tallies, finding F36)
   FixF4         \* BOOLEAN: FALSE = the code as it is (FilterServiceProviders
                 \* sums the undiscounted price, finding F4); TRUE = after the
                 \* fix "sum GetPrice"
@@ -42,6 +44,7 @@ MOD  == "verif"            \* the harness-owned callback module
 BadNames == {"", "9bad"}   \* service names rejected by ValidateServiceName
 OSVC == "oracle-price"     \* the service name of the "oracle" module service (types/oracle_price.go)
 OPROV == "oracle"          \* its provider address (crypto.AddressHash("oracle"))
+NONE == "none"             \* the empty address as an "owner" (finding F36)
 PriceDenoms == {D, "btc"}  \* denoms with a positive supply (binding.go validatePricing)
 
 UsersOf(t) == DOMAIN t.bal \ {DEP, REQ, FEEP}
@@ -288,7 +291,17 @@ CallModule(s, e) ==
                                            reqH |-> s.h, expH |-> s.h + 1, idx |-> 0]),
                  !.resp = Put(s1.resp, rid, [ctx |-> id, batch |-> 1, provider |-> OPROV, consumer |-> e.who,
                                              out |-> ~NoRate(s)])]
-    IN Done(IncVol(s2, OSVC, OPROV, e.who))
+        \* AddEarnedFee(module provider, empty fee): the provider has no owner, GetOwner
+        \* returns the empty address, GetOwnerEarnedFees(empty) iterates the prefix of ALL
+        \* owners and SetOwnerEarnedFees(empty, that sum) stores it under the empty owner
+        \* (finding F36; nothing is written when no owner tally exists)
+        all == [d \in DenomsOf(s) |->
+                  SumOver([o \in DOMAIN s.ownerEarned |-> Amt(s.ownerEarned[o], d)], DOMAIN s.ownerEarned)]
+        s3 == IF FixF36 \/ Pos(all) = EmptyF THEN s2
+              ELSE [s2 EXCEPT !.ownerEarned = Put(s2.ownerEarned, NONE,
+                       [d \in DOMAIN Pos(all) \cup DOMAIN Get(s2.ownerEarned, NONE, EmptyF) |->
+                          IF d \in DOMAIN Pos(all) THEN all[d] ELSE s2.ownerEarned[NONE][d]])]
+    IN Done(IncVol(s3, OSVC, OPROV, e.who))
 
 DoCall(s, e) ==
   IF ~ValidRequest(e) THEN FailW(s, "validate_basic")
@@ -749,12 +762,15 @@ C07_RequestEscrow(t) == \A d \in DenomsOf(t) : EscrowW(BalD(t, REQ, d), Liabilit
 C07_RequestEscrow_ModF4(t, g) ==
   \A d \in DenomsOf(t) : EscrowW(BalD(t, REQ, d), Liabilities(t, d) + Amt(g.f4, d))
 
-(* C07: provider-side and owner-side tallies agree *)
-C07_OwnerTally(t) ==
+(* C07: provider-side and owner-side tallies agree.  relax = TRUE: modulo
+   finding F36 (the tally stored under the empty owner is ignored) *)
+OwnerTallyX(t, relax) ==
   /\ DOMAIN t.earned \subseteq DOMAIN t.owner
-  /\ \A o \in DOMAIN t.ownerEarned \cup Range(t.owner) : \A d \in DenomsOf(t) :
+  /\ \A o \in (DOMAIN t.ownerEarned \cup Range(t.owner)) \ (IF relax THEN {NONE} ELSE {}) : \A d \in DenomsOf(t) :
        LET ps == {p \in DOMAIN t.owner : t.owner[p] = o} IN
        OwnerEarnedOf(t, o, d) = SumOver([p \in ps |-> EarnedOf(t, p, d)], ps)
+C07_OwnerTally(t) == OwnerTallyX(t, FALSE)
+C07_OwnerTally_ModF36(t) == OwnerTallyX(t, TRUE)
 
 (* C07: in the end-blocker every account pays exactly the fees recorded on the
    requests issued for it and gets back exactly the fees of its requests that
